@@ -26,7 +26,7 @@ func authFilter(init []string, ops []string) func(hist []string) []string {
 					registered = p[1]
 				}
 			case "auth":
-				if registered == "" || p[4] != registered || (len(p) > 5 && p[5] == "flip") || banned[p[1]] {
+				if registered == "" || p[4] != registered || (len(p) > 5 && (p[5] == "flip" || p[5] == "stale")) || banned[p[1]] {
 					continue
 				}
 				variant := p[2] + "/" + p[3]
@@ -89,6 +89,7 @@ func init() {
 			"auth:1:kF:1000:G1",      // a1''': fresh key
 			"auth:2:kB:1000:G1",      // a2
 			"auth:1:kA:1000:G1:flip", // one bit of the signature flipped
+			"auth:1:kA:1000:G1:stale", // content altered after signing: carries the valid signature of a1
 			"auth:1:kA:1000:temp", "auth:1:kA:1000:srv", "auth:1:kA:1000:G2",
 			"auth:1:kA:2000:G2", // a conflict that is not signed by the GCA must not ban
 			"rep:1:kA:now:500", "rep:2:kB:now:500", "rep:1:kB:now:500", "rep:1:kF:now:500",
@@ -116,18 +117,18 @@ func init() {
 		return runOpsCheck("C04", tier, arg, ops, depth, "BFS over histories of reports (incl. banned slots and over-capacity), authorizations (new, conflicting = ban), rotations, impact rounds, clock moves that make a restart need 0/1/3 catch-up rotations, and restarts; at every distinct state: restart (must succeed, state = model incl. catch-up rotations, archived weeks byte-identical on disk and through the API), second restart (idempotent), public observables after restart")
 	}
 	checks["C03"] = func(tier string) int {
-		arg := opsArg{Name: "c03", Init: []string{"reg:G1:temp", "auth:1:kA:1000:G1", "auth:2:kB:1000:G1", "now:0"}, RestartCheck: tier == "thorough"}
+		arg := opsArg{Name: "c03", Init: []string{"reg:G1:temp", "auth:1:kA:1000:G1", "auth:2:kB:1000:G1", "now:0"}, RestartCheck: true}
 		ops := []string{
 			"rep:1:kA:now:500", "rep:1:kA:now:600", "rep:2:kB:now:700",
 			"nowoff:1", "nowoff:2015", "nowoff:2016", "nowoff:2017", "nowoff:3200", "nowoff:3201", "nowoff:4031", "nowoff:6100",
-			"tick", "rot", "impact",
+			"tick", "rot", "impact", "restart",
 			"auth:3:kC:1000:G1", "auth:1:kX:1000:G1",
 			"get:0:neg", "get:off+0:neg", "get:off+4032", "get:7",
 		}
-		depth := 4
+		depth := 3
 		if tier == "thorough" {
-			depth = 5
+			depth = 4
 		}
-		return runOpsCheck("C03", tier, arg, ops, depth, "BFS over histories of reports at window edges (slots 0,1,2015,2016,2017,3200,3201,4031 relative to the offset), clock moves, rotation-loop ticks (the real loop decides), forced rotations, impact rounds, authorizations and bans, statistics requests with insert_false_negatives (random source answering 'always negate'), future and misaligned weeks; every distinct state: every archived week on disk and through the API equals the model (values, impact rates, contiguous offsets, signature over the independently encoded layout, byte-identical to its first appearance, also after a false-negatives request), live weeks equal the model")
+		return runOpsCheck("C03", tier, arg, ops, depth, "BFS over histories of reports at window edges (slots 0,1,2015,2016,2017,3200,3201,4031 relative to the offset), clock moves (incl. three weeks ahead), rotation-loop ticks (the real loop decides), forced rotations, impact rounds, restarts (with start-up catch-up), authorizations and bans, statistics requests with insert_false_negatives (random source answering 'always negate'), future and misaligned weeks; every distinct state: every archived week on disk and through the API equals the model (values, impact rates, contiguous offsets, signature over the independently encoded layout, byte-identical to its first appearance, also after a false-negatives request and after restart;restart), live weeks equal the model")
 	}
 }
